@@ -157,7 +157,6 @@ def dpreMs : Ms → List DNode
     .node (.check sub) ::
       (match sub with
        | .pkK k | .pkH k => [.key k]
-       | .rawPkH h => [.rawKeyHash h]
        | _ => dpreMs sub)
   | .alt x => .node (.alt x) :: dpreMs x
   | .swap x => .node (.swap x) :: dpreMs x
@@ -249,7 +248,7 @@ def kidKinds (name : FragName) (n : Nat) : List Nat :=
   match name with
   | .one | .zero => []
   | .pk_k | .pk_h | .pk | .pkh => [2]
-  | .expr_raw_pk_h | .expr_raw_pkh => [3]
+  | .expr_raw_pkh => [3]
   | .after => [4]
   | .older => [5]
   | .sha256 => [6] | .hash256 => [7] | .ripemd160 => [8] | .hash160 => [9]
@@ -318,7 +317,7 @@ def unview : FragName → List DNode → Option Ms
   | .zero, [] => some .fls
   | .pk_k, [.key k] => some (.pkK k)
   | .pk_h, [.key k] => some (.pkH k)
-  | .expr_raw_pk_h, [.rawKeyHash h] => some (.rawPkH h)
+  | .expr_raw_pkh, [.rawKeyHash h] => some (.rawPkH h)
   | .after, [.after n] => some (.after n)
   | .older, [.older n] => some (.older n)
   | .sha256, [.hash kind h] => some (.hash kind h)
@@ -329,7 +328,6 @@ def unview : FragName → List DNode → Option Ms
   | .s, [.node x] => some (.swap x)
   | .pk, [.key k] => some (.check (.pkK k))
   | .pkh, [.key k] => some (.check (.pkH k))
-  | .expr_raw_pkh, [.rawKeyHash h] => some (.check (.rawPkH h))
   | .c, [.node x] => some (.check x)
   | .d, [.node x] => some (.dupIf x)
   | .v, [.node x] => some (.verify x)
